@@ -273,7 +273,12 @@ package server
 // is restarting, the retained routes are dropped (or the long-lived phase started) for no other reason than the
 // expiry of the restart timer - a reconnection attempt that fails inside the window is not one
 //@ func (*BgpServer).handleFSMMessage
+//@   tag C12 C09
 //@   claims at-call
+// from C09 "private-AS options applied": what a session is to do with private AS numbers (and the peer type and local
+// AS it runs with) comes from the configuration; wiping the neighbour's operational state on administrative shutdown
+// keeps those - the export rewriting of the next session reads them from there
+//@   at-call peer.fsm.bgpMessageResetStats() requires called(clearedNeighborState)
 //@   at-call ^s.dropAdjRIBIn(peer, peer.configuredRFlist()) requires restartTimerExpired
 //@   at-call peer.llgrFamilies() requires restartTimerExpired
 
